@@ -139,8 +139,19 @@ AnswersOK(e, keep(_)) ==
         IF e.returned[k].none THEN e.reported[k] = <<>>
         ELSE Len(e.returned[k].x) = Len(e.received.cols) /\ SameFn(PairsFn(e.reported[k]), ReportOf(e.received.cols, e.returned[k].x, keep))
 
+\* "default" has the stated meaning only for a defaulted group that is asserted as it stands: on the path from the configurator to the
+\* group no node negates it (condition of an Imply, Not, XNor, the at-most half of an Xor / ExactlyOne, AtMost, negative sign).
+\* For other recipes the clauses about defaults (dpv_expected, opt_same) do not judge; ranks still does, from the actual priorities.
+RECURSIVE DefaultsPositive(_, _)
+DefaultsPositive(r, pos) ==
+  IF r.c = "leaf" THEN TRUE
+  ELSE /\ (r.d # "" => pos)
+       /\ \A i \in DOMAIN r.a : DefaultsPositive(r.a[i],
+              IF r.c \in {"Cfg", "All", "Any", "ccAny"} \/ (r.c = "Imply" /\ i = 2) \/ (r.c = "AtLeast" /\ r.s >= 0) THEN pos ELSE FALSE)
+
 EvSelect(e) ==
   LET m == e.model
+      dok == e.spec_ok /\ DefaultsPositive(e.recipe, TRUE)
       rc == e.received
       called == e.called
       lids == LeafIds(m)
@@ -150,7 +161,7 @@ EvSelect(e) ==
      ELSE QFail("no_exception", e.exc = "")
      \cup (IF e.exc # "" \/ ~called THEN {} ELSE
            QFail("poly_is_own", rc.rows = e.direct.rows /\ rc.cols = e.direct.cols /\ rc.dpv = e.direct.dpv)
-           \cup QFail("dpv_expected", (e.spec_ok /\ Len(rc.dpv) = Len(rc.cols)) => DpvExpected(m, Mk(e.recipe), rc.cols, rc.dpv))
+           \cup QFail("dpv_expected", (dok /\ Len(rc.dpv) = Len(rc.cols)) => DpvExpected(m, Mk(e.recipe), rc.cols, rc.dpv))
            \cup QFail("objective_count", Len(rc.objectives) = Len(e.prios) /\ \A k \in DOMAIN rc.objectives : Len(rc.objectives[k]) = Len(rc.cols))
            \cup (IF Len(rc.objectives) # Len(e.prios) \/ \E k \in DOMAIN rc.objectives : Len(rc.objectives[k]) # Len(rc.cols) THEN {} ELSE
                  \* the ranking statement is about boolean items; with integer items only the level structure of the weights is judged
@@ -159,7 +170,7 @@ EvSelect(e) ==
                  \cup QFail("objective_levels", Len(rc.dpv) = Len(rc.cols) => \A k \in DOMAIN e.prios :
                             ShadowOK(LevelMatrix(rc.cols, rc.dpv, PairsFn(e.prios[k])), rc.objectives[k]))
                  \cup QFail("cols_cover_leaves", lids \subseteq ColIds(rc.cols))
-                 \cup QFail("opt_same", (lids \subseteq ColIds(rc.cols) /\ e.enum /\ e.spec_ok) => \A k \in DOMAIN e.prios :
+                 \cup QFail("opt_same", (lids \subseteq ColIds(rc.cols) /\ e.enum /\ dok) => \A k \in DOMAIN e.prios :
                             LeafParts(rc, ArgMax(rc.objectives[k], PolyPts(rc)), lids)
                             = LeafParts(spec, ArgMax(Shadow(LevelMatrix(spec.cols, spec.dpv, PairsFn(e.prios[k]))), PolyPts(spec)), lids)))
            \cup QFail("ids_aligned", AnswersOK(e, LAMBDA j : (~e.only_leafs) \/ rc.cols[j].id \in lids))
